@@ -34,7 +34,10 @@ func liveFrames(s *scn.Scn) int {
 	if err != nil {
 		return 0
 	}
-	return len(r.Frames)
+	// Frames up to the last commit frame: frames of a rolled-back transaction stay physically valid in
+	// the file until the next writer overwrites them, but they are not part of the log (SQLite's mxFrame
+	// does not include them) and nobody can checkpoint them.
+	return r.CommittedFrames
 }
 
 // c13Check: (a) after every successful Sync with no pinned application
@@ -74,8 +77,11 @@ func c13Check() *HistCheck {
 				}
 			}
 			total := counts[len(counts)-1] - counts[0]
-			tail := counts[len(counts)-1] - counts[len(counts)-5]
-			if tail > 0 || total > 6 {
+			tail := 0
+			if len(counts) >= 5 {
+				tail = counts[len(counts)-1] - counts[len(counts)-5]
+			}
+			if len(counts) == c13IdleSyncs+1 && (tail > 0 || total > 6) {
 				probs = append(probs, &scn.Problem{Kind: "idle-not-silent", Detail: fmt.Sprintf("L0 max TXID across %d idle syncs: %v (last 4 created %d files, total %d)", c13IdleSyncs, counts, tail, total)})
 			}
 			return probs, fmt.Sprintf("ok/idle-files=%d/frames=%d", total, liveFrames(s)), nil
